@@ -278,29 +278,7 @@ pub open spec fn lin_frame<F: Frame>(out: F, l: F, r: F, x: f64) -> bool {
 // ---------------------------------------------------------------------------------------------
 // MulHz: the ratio is set from exactly one control frame before every output frame
 // ---------------------------------------------------------------------------------------------
-// f64 as a (mono) frame: trusted instance of the Frame contract for the control signal (C03 mono harnesses)
-impl Sample for f64 { type Signed = f64; type Float = f64; }
-pub struct N1 {}
-pub struct F64Channels { pub f: f64, pub i: usize }
-impl Iterator for F64Channels {
-    type Item = f64;
-    type ISt = (f64, nat);
-    open spec fn ist(&self) -> Self::ISt { (self.f, self.i as nat) }
-    open spec fn inext(s: Self::ISt) -> (Option<f64>, Self::ISt) { if s.1 == 0 { (Some(s.0), (s.0, 1)) } else { (None, s) } }
-    #[verifier::external_body]
-    fn next(&mut self) -> (r: Option<f64>) { unimplemented!() }
-}
-impl Frame for f64 {
-    type Sample = f64;
-    type NumChannels = N1;
-    type Channels = F64Channels;
-    open spec fn nch() -> nat { 1 }
-    open spec fn ch(self, i: int) -> f64 { self }
-    open spec fn equilibrium_spec() -> f64 { 0.0f64 }
-    proof fn nch_positive() {}
-    #[allow(non_snake_case)]
-    fn EQUILIBRIUM_() -> (r: f64) { 0.0 }
-}
+//@include _shared/f64_frame.rs
 
 //@struct file=dasp_signal/src/lib.rs name=MulHz
 //@impl file=dasp_signal/src/lib.rs header="impl<S, M, I> Signal for MulHz<S, M, I>"
